@@ -1205,6 +1205,48 @@ def _histories(ctx, reqs, pending):
         pending.append(({'history': d, 'ops': ops, 'what': 'answers of the fetches of a history vs the state machine'}, ('ok', impl)))
 
 
+def _float_pixel_maps(ctx):
+    """Parametric maps with FLOATING-POINT pixel data (FloatPixelData / DoubleFloatPixelData): every way of fetching a stored frame
+    against pydicom's decode.  The pinned tree has no frame-wise access to these elements (open finding
+    C05-float-pixel-data-frames): un-cached in-memory reads raise AttributeError (`get_raw_frame` reads `self.PixelData`), lazy reads
+    return the float bit patterns as integers (`decode_frame` knows integer pixel data only).  Failures of this stream are
+    attributed to that finding and nothing else is."""
+    import highdicom as hd
+    import pydicom
+    from pydicom.uid import ExplicitVRLittleEndian, ParametricMapStorage
+    from gen.images import multiframe_image, to_bytes
+    for bits, fdt, kw in ((32, np.float32, 'FloatPixelData'), (64, np.float64, 'DoubleFloatPixelData')):
+        arr = (np.arange(2 * 2 * 3).reshape(2, 2, 3) * 1.25 - 3.5).astype(fdt)
+        ds = multiframe_image(np.zeros((2, 2, 3), dtype=np.int64), 16, ExplicitVRLittleEndian)
+        ds.SOPClassUID = ParametricMapStorage
+        ds.file_meta.MediaStorageSOPClassUID = ParametricMapStorage
+        ds.BitsAllocated = bits
+        for k_ in ('BitsStored', 'HighBit', 'PixelData'):
+            if k_ in ds:
+                del ds[k_]
+        setattr(ds, kw, arr.tobytes())
+        blob = to_bytes(ds)
+        ref = pydicom.dcmread(io.BytesIO(blob)).pixel_array
+        for name, mk in (('memory', lambda: hd.Image.from_dataset(pydicom.dcmread(io.BytesIO(blob)), copy=False)),
+                         ('eager', lambda: hd.imread(blob)), ('lazy', lambda: hd.imread(blob, lazy_frame_retrieval=True))):
+            st, im = _fetch(mk)
+            if st != 'ok':
+                ctx.fail({'float_pixels': {'bits': bits}, 'path': name}, f'could not open image: {im}', site='open/float-pixels')
+                continue
+            for phase in ('fresh', 'cached'):
+                if phase == 'cached':
+                    _fetch(lambda: im.pixel_array)
+                for k in (1, 2):
+                    for what, f in (('get_stored_frame', lambda: im.get_stored_frame(k)),
+                                    ('get_stored_frames', lambda: im.get_stored_frames([k])[0])):
+                        st2, v = _fetch(f)
+                        ctx.case(path=f'float-pixels/{name}/{phase}', float_pixel_outcome='ok' if st2 == 'ok' else v)
+                        if st2 != 'ok' or not np.array_equal(np.asarray(v), ref[k - 1]):
+                            ctx.fail({'float_pixels': {'bits': bits}, 'path': name, 'phase': phase, 'call': what, 'k': k},
+                                     f'float stored frame: {v if st2 != "ok" else "values differ from pydicom (" + str(np.asarray(v).dtype) + ")"}',
+                                     site=what + '/float-pixels')
+
+
 def run(ctx):
     reqs, pending = [], []
     _helpers(ctx, reqs, pending)
@@ -1214,6 +1256,7 @@ def run(ctx):
     _byte_streams(ctx, reqs, pending)
     _assembled(ctx, reqs, pending)
     _histories(ctx, reqs, pending)
+    _float_pixel_maps(ctx)
     for d, ds, fr in _images(ctx):
         _check_image(ctx, d, ds, fr, reqs, pending)
     _fixtures(ctx)
@@ -1233,6 +1276,22 @@ def run(ctx):
         # error kinds are compared as ok-vs-error only (DESIGN 3)
 
 
+def attribute(failure, open_findings):
+    """C05-float-pixel-data-frames: failures of the float-pixel stream (and only those) belong to the open finding"""
+    import json
+    ids = {f['id'] for f in open_findings}
+    try:
+        here = os.path.dirname(os.path.dirname(os.path.dirname(os.path.abspath(__file__))))
+        ids |= {f['id'] for f in json.load(open(os.path.join(here, 'findings', 'C05.json'))) if f.get('status') == 'open'}
+    except Exception:  # noqa: BLE001
+        pass
+    case = failure.get('case') or {}
+    if 'C05-float-pixel-data-frames' in ids and isinstance(case, dict) and 'float_pixels' in case \
+            and str(failure.get('site', '')).endswith('/float-pixels'):
+        return 'C05-float-pixel-data-frames'
+    return None
+
+
 def replay(ctx, case):
     """Re-run one stored case on the implementation; returns failure detail or None.  Every case is a pure function of
     (seed, stream, index), so the whole deterministic run is repeated quietly (a few seconds) and the failures on the same
@@ -1241,6 +1300,10 @@ def replay(ctx, case):
     sub.model_available = False          # implementation side only
     import contextlib
     import io as _io
+    if isinstance(case, dict) and 'float_pixels' in case:
+        with contextlib.redirect_stdout(_io.StringIO()), contextlib.redirect_stderr(_io.StringIO()):
+            _float_pixel_maps(sub)
+        return sub.failures[:3] or None
     with contextlib.redirect_stdout(_io.StringIO()), contextlib.redirect_stderr(_io.StringIO()):
         run(sub)
 
